@@ -133,7 +133,7 @@ class C16(PropBase):
         bases = rng.sample(sorted(BASES), 3)
         wraps = list(WRAPS)
         n = rng.randint(1, 6) if rng.random() < 0.6 else rng.randint(7, 12 if tier == "quick" else 40)
-        nctx = 1 if rng.random() < 0.8 else 2
+        nctx = 1 if rng.random() < 0.65 else 2
         stored = {c: [] for c in range(nctx)}
         steps = []
         tok = 0
